@@ -805,8 +805,8 @@ mut('c18-await-before-try', 'C18', ['C18.1'], S,
     "        self.on(event_type, notify_expect_handler)\n        await asyncio.sleep(0)\n\n        try:\n",
     'cancellation between registration and try leaks the handler')
 mut('c18-key-str-for-classes', 'C18', ['C18.2'], S,
-    "            event_key: str = str(event_type)\n            if isinstance(event_type, type):\n",
-    "            event_key: str = str(event_type)\n            if False:\n",
+    "            event_key: str = str.__str__(event_type) if isinstance(event_type, str) else str(event_type)\n            if isinstance(event_type, type):\n",
+    "            event_key: str = str.__str__(event_type) if isinstance(event_type, str) else str(event_type)\n            if False:\n",
     'class patterns never unsubscribed')
 mut('c18-no-exclude', 'C18', ['C18.3'], S,
     "            if not future.done() and include(event) and not exclude(event):", "            if not future.done() and include(event):",
@@ -961,8 +961,8 @@ neutral('n-retry-wait-commuted', H,
         "                current_wait = wait * (backoff_factor**attempt)", "                current_wait = (backoff_factor**attempt) * wait",
         'commuted product')
 neutral('n-expect-key-ifelse', S,
-        "            event_key: str = str(event_type)\n            if isinstance(event_type, type):\n                declared_event_type = event_type.model_fields['event_type'].default\n                if isinstance(declared_event_type, str) and declared_event_type != 'UndefinedEvent':\n                    event_key = declared_event_type\n                else:\n                    event_key = event_type.__name__  # pyright: ignore[reportUnknownMemberType]\n",
-        "            if not isinstance(event_type, type):\n                event_key = str(event_type)\n            else:\n                declared = event_type.model_fields['event_type'].default\n                event_key = declared if isinstance(declared, str) and declared != 'UndefinedEvent' else event_type.__name__\n",
+        "            event_key: str = str.__str__(event_type) if isinstance(event_type, str) else str(event_type)\n            if isinstance(event_type, type):\n                declared_event_type = event_type.model_fields['event_type'].default\n                if isinstance(declared_event_type, str) and declared_event_type != 'UndefinedEvent':\n                    event_key = declared_event_type\n                else:\n                    event_key = event_type.__name__  # pyright: ignore[reportUnknownMemberType]\n",
+        "            if not isinstance(event_type, type):\n                event_key = str.__str__(event_type) if isinstance(event_type, str) else str(event_type)\n            else:\n                declared = event_type.model_fields['event_type'].default\n                event_key = declared if isinstance(declared, str) and declared != 'UndefinedEvent' else event_type.__name__\n",
         'key derivation in expect restructured (inverted test, conditional expression)')
 neutral('n-bus-name-stricter', S,
         "        assert self.name.isidentifier() and not self.name.startswith('_'), (", "        assert not self.name.startswith('_') and self.name.isidentifier() and len(self.name) < 200, (",
@@ -1206,3 +1206,25 @@ mut('c10-taskgroup', 'C10', ['C10.7'], S,
 neutral('n-retry-terminal-first', H,
         "            if attempt < retries:", "            if not (attempt >= retries):",
         'comparison spelled through its negation')
+neutral('n-on-key-match-statement', S,
+        "        if event_pattern == '*':\n            event_key = '*'\n        elif isinstance(event_pattern, type) and issubclass(event_pattern, BaseEvent):  # pyright: ignore[reportUnnecessaryIsInstance]",
+        "        match event_pattern:\n            case '*':\n                event_key = '*'\n            case _:\n                event_key = ''\n        if event_key == '*':\n            pass\n        elif isinstance(event_pattern, type) and issubclass(event_pattern, BaseEvent):  # pyright: ignore[reportUnnecessaryIsInstance]",
+        'wildcard test written as a match statement')
+neutral2('n-local-aliases-step-and-inline', [
+    (S, "        assert self._on_idle and self.event_queue, 'EventBus._start() must be called before step()'\n\n        # Track if we got the event from the queue\n        from_queue = False\n",
+        "        assert self._on_idle and self.event_queue, 'EventBus._start() must be called before step()'\n        queue = self.event_queue\n        idle_flag = self._on_idle\n\n        # Track if we got the event from the queue\n        from_queue = False\n"),
+    (S, "        # Clear idle state when we get an event\n        self._on_idle.clear()", "        # Clear idle state when we get an event\n        idle_flag.clear()"),
+    (S, "            if from_queue:\n                self.event_queue.task_done()\n\n        logger.debug(f'✅ {self}.step({event}) COMPLETE')", "            if from_queue:\n                queue.task_done()\n\n        logger.debug(f'✅ {self}.step({event}) COMPLETE')"),
+    (M, "                            # Process one event from this bus if available\n                            try:\n                                if bus.event_queue.qsize() > 0:\n                                    event = bus.event_queue.get_nowait()",
+        "                            # Process one event from this bus if available\n                            bus_queue = bus.event_queue\n                            try:\n                                if bus_queue.qsize() > 0:\n                                    event = bus_queue.get_nowait()"),
+    (M, "                                        bus.event_queue.task_done()", "                                        bus_queue.task_done()"),
+], 'new local aliases for attribute chains (propagated back by sa/alias.py)')
+mut('c01-revert-f19-on', 'C01', ['C01.1'], S,
+    "            event_key = str.__str__(event_pattern)", "            event_key = str(event_pattern)",
+    'str-Enum members filed under their printed form again (F19 reverted in on)')
+mut('c18-revert-f19-expect', 'C18', ['C18.2'], S,
+    "            event_key: str = str.__str__(event_type) if isinstance(event_type, str) else str(event_type)", "            event_key: str = str(event_type)",
+    'expect removes a str-Enum pattern from the printed-form key it was never filed under (F19 reverted in expect)')
+mut('c18-untimed-wait-on-falsy-timeout', 'C18', ['C18.4'], S,
+    "            if timeout is not None:\n                return await asyncio.wait_for(future, timeout=timeout)", "            if timeout:\n                return await asyncio.wait_for(future, timeout=timeout)",
+    'timeout=0 waits forever')
